@@ -5,7 +5,7 @@
 //! requests (see lean/RsslVerif/Driver/C11.lean for the same grammar):
 //!   C11.seq  \t <symbols>            0 1 d n e E l f t D  (+ implicit probe line `probe M`)
 //!   C11.run  \t <dir>;<dir>;...      i:<cond> d:<name> n:<name> e:<cond> l f t:<toks> D:<name>:<body>
-//!                                    U:<name> P:once|warning|unknown I:<toks> I! X
+//!                                    U:<name> P:once|warning|unknown I:<toks> I! X N
 //!   C11.cond \t <n=body,...> \t <cond tokens>
 //! tokens are separated by one space; `<~` / `>~` = angle bracket glued to the next token.
 //! observe : `ok line|line|...` (non-empty output lines, token texts joined by one space) or
@@ -35,6 +35,8 @@ enum Dir {
     Pragma(String),
     Include(Option<String>),
     Unknown,
+    /// `#3`: a directive that does not start with a name
+    NonName,
 }
 
 fn parse_dir(s: &str) -> Option<Dir> {
@@ -53,6 +55,7 @@ fn parse_dir(s: &str) -> Option<Dir> {
         ["I", t] => Dir::Include(Some(t.to_string())),
         ["I!"] => Dir::Include(None),
         ["X"] => Dir::Unknown,
+        ["N"] => Dir::NonName,
         _ => return None,
     })
 }
@@ -72,6 +75,7 @@ fn show_dir(d: &Dir) -> String {
         Dir::Include(Some(t)) => format!("I:{}", t),
         Dir::Include(None) => "I!".into(),
         Dir::Unknown => "X".into(),
+        Dir::NonName => "N".into(),
     }
 }
 
@@ -179,6 +183,7 @@ fn build_files(dirs: &[Dir], style: u8) -> Vec<(String, String)> {
             }
             Dir::Include(None) => main.push_str("#include \"missing.h\"\n"),
             Dir::Unknown => main.push_str(&format!("{}frobnicate{}1{}", hash, gap, eol)),
+            Dir::NonName => main.push_str(&format!("{}3{}", hash, eol)),
         }
     }
     files.insert(0, ("main.rssl".to_string(), main));
@@ -698,6 +703,9 @@ fn reference(dirs: &[Dir]) -> Expected {
             }
             Dir::Include(None) => verdict = Some(Expected::Reject("missing-include", "FailedToFindFile")),
             Dir::Unknown => verdict = Some(Expected::Reject("unknown-directive", "UnknownCommand")),
+            // `# non-directive` in a processed group: undefined behaviour in C (6.10 p9); in a skipped group it
+            // is not looked at (the `_ if !active` arm above)
+            Dir::NonName => verdict = Some(Expected::Skip("non-directive in a selected group".into())),
         }
     }
     if ill_formed_somewhere {
@@ -1178,6 +1186,7 @@ fn random_runs(r: &mut Rng, n: u64, out: &mut Out, st: &mut Stats) {
                     if r.chance(2, 3) { Dir::Include(Some(format!("inc{} A B", i))) } else { Dir::Include(None) }
                 }
                 76..=77 => Dir::Unknown,
+                78..=79 => Dir::NonName,
                 _ => Dir::Text(format!("t{} A B C", i)),
             };
             dirs.push(d);
